@@ -42,6 +42,14 @@ MOMENTS = ["before", "inflight", "after"]   # plus "entry": cancellation while t
 BACKLOG_BYTES = 16000    # size of one queued outgoing notification (`backlog` of them are queued just before the exit)
 HANG_AFTER_MS = GRACE_MS + SLACK_MS + 500   # an exit still running then is released by killing the child and reported
 APIS = ["stdio_client", "StdioTransport", "StdioClient"]
+# further ways into and out of the context: the wrapper that performs the handshake on entry; entering and leaving by
+# hand, the exit in ANOTHER task under a timeout (what server_manager.run_command does)
+MORE_APIS = ["with_initialize", "manual"]
+FALSY_RESULTS = [{}, 0, "", [], False]
+EXC_TEXTS = {"plain": "exception in body", "empty": "", "cancel-scope": "Attempted to exit a cancel scope that isn't current",
+             "json": "the JSON object must be str, bytes or bytearray, not dict", "hostile": "%s %d {0} {} \r\n\u2028 '\"\\",
+             "long": "x" * 100_000}
+HANDSHAKE_SILENT_S = 0.6
 
 CHILD = r'''
 import sys, os, json, time, signal
@@ -55,11 +63,27 @@ def maybe_exit():
 def out(obj):
     sys.stdout.buffer.write(json.dumps(obj).encode() + b"\n")
     sys.stdout.buffer.flush()
+FALSY = [{}, 0, "", [], False]
+def raw(b):
+    sys.stdout.buffer.write(b)
+    sys.stdout.buffer.flush()
 maybe_exit()                                   # step 0: before anything else
 if kind == "slow_start":
     time.sleep(spec.get("delay", 0.7))
 if kind == "ignore_term":
     signal.signal(signal.SIGTERM, signal.SIG_IGN)
+if "term_delay" in spec:                       # reacts to SIGTERM, but only after a while
+    def on_term(*a):
+        time.sleep(spec["term_delay"])
+        os._exit(0)
+    signal.signal(signal.SIGTERM, on_term)
+if spec.get("stderr"):
+    sys.stderr.write("child says %s {0} on stderr\n" * 50)
+    sys.stderr.flush()
+if spec.get("chatty"):                         # lines that carry nothing, and an answer nobody asked for
+    raw(b"\n\n   \n# not json\n[]\n{}\nnull\n\xe2\x80\xa8\n%s %d {0}\r\n")
+    out({"jsonrpc": "2.0", "id": "nobody", "result": {"echo": "unsolicited"}})
+    out({"jsonrpc": "2.0", "id": 0, "error": {"code": -32000, "message": "unsolicited"}})
 out({"jsonrpc": "2.0", "method": "notifications/ready"})
 if kind == "never_reads":
     while True:
@@ -67,7 +91,7 @@ if kind == "never_reads":
 if kind == "flood":
     line = (json.dumps({"jsonrpc": "2.0", "method": "notifications/message",
                         "params": {"level": "info", "data": "x" * 200}}) + "\n").encode()
-    junk = b"this is not json\n"
+    junk = b"this is not json %s {0}\r\n\xe2\x80\xa8\n\n{\"jsonrpc\": \"2.0\"\n"
     n = 0
     while True:
         sys.stdout.buffer.write(line * 50 + (junk if spec.get("junk") else b""))
@@ -101,11 +125,24 @@ while True:
         continue
     if not isinstance(m, dict) or "id" not in m or "method" not in m:
         continue
-    step += 1                                  # odd step: a request has been read
-    maybe_exit()
+    if m["method"] != "initialize":
+        step += 1                              # odd step: a request has been read
+        maybe_exit()
     if m["method"] == "hold" or closed:
         continue                               # never answered
-    out({"jsonrpc": "2.0", "id": m["id"], "result": {"echo": (m.get("params") or {}).get("x")}})
+    if m["method"] == "initialize":
+        res = {"protocolVersion": (m.get("params") or {}).get("protocolVersion", "2025-06-18"), "capabilities": {},
+               "serverInfo": {"name": "child", "version": "1"}}
+    elif "falsy_result" in spec:
+        res = FALSY[spec["falsy_result"]]
+    else:
+        res = {"echo": (m.get("params") or {}).get("x")}
+    out({"jsonrpc": "2.0", "id": m["id"], "result": res})
+    if spec.get("chatty"):                     # says everything twice
+        out({"jsonrpc": "2.0", "id": m["id"], "result": res})
+        raw(b"\n")
+    if m["method"] == "initialize":
+        continue                               # the handshake is not a step of the conversation
     step += 1                                  # even step: it has been answered
     maybe_exit()
     answered += 1
@@ -137,6 +174,8 @@ def answers(case, j):
 
 def waits_ready(case):
     b = case["behaviour"]
+    if case.get("api") == "with_initialize":
+        return False                           # the handshake has consumed the child's first lines
     if b == "slow_start":
         return case["moment"] != "before"      # "before": leave while the child is still starting
     if b == "exit_at":
@@ -213,10 +252,15 @@ async def _scenario(case, tmp, obs):
     me = os.getpid()
     script = os.path.join(tmp, "child.py")
     spec = {"kind": case["behaviour"]}
-    for key in ("k", "code", "junk", "delay", "linger", "close_after"):
+    for key in ("k", "code", "junk", "delay", "linger", "close_after", "term_delay", "stderr", "chatty", "falsy_result"):
         if key in case:
             spec[key] = case[key]
-    params = StdioParameters(command=sys.executable, args=["-S", "-E", script, json.dumps(spec)])
+    args = ["-S", "-E", script, json.dumps(spec)]
+    if case.get("hostile_args"):
+        args += ["", "%s %d {0} {}", "\r\n\u2028", "x" * 100_000]
+    envs = {None: None, "empty": {}, "quiet": {"LOG_LEVEL": "ERROR", "PATH": os.environ.get("PATH", "/usr/bin:/bin")},
+            "quiet2": {"LOGGING_LEVEL": "critical", "LOG_LEVEL": "", "HOME": ""}}
+    params = StdioParameters(command=sys.executable, args=args, env=envs[case.get("env")])
 
     # warm-up: whatever the event loop allocates on its first subprocess is allocated now
     p = await anyio.open_process([sys.executable, "-S", "-E", "-c", "pass"])
@@ -246,21 +290,61 @@ async def _scenario(case, tmp, obs):
                 shared["obj"] = t
             async with t:
                 yield await t.get_streams()
+        elif api == "with_initialize":
+            from chuk_mcp.transports.stdio.stdio_client import stdio_client_with_initialize
+            t = ANSWER_TIMEOUT_S if answers(case, 1) else HANDSHAKE_SILENT_S
+            if not answers(case, 1):
+                clock["exit"] = time.monotonic() + t      # the handshake fails then; the wrapper has to clean up
+            async with stdio_client_with_initialize(params, timeout=t) as (r, w, _init):
+                clock["exit"] = None
+                yield r, w
+        elif api == "manual":
+            # entered and left by hand, the exit in a task of its own under a timeout (server_manager.run_command)
+            import asyncio
+            from chuk_mcp.transports.stdio.stdio_client import stdio_client
+            cm = stdio_client(params)
+            streams = await cm.__aenter__()
+            try:
+                yield streams
+            finally:
+                close_task = asyncio.create_task(cm.__aexit__(None, None, None))
+                try:
+                    await asyncio.wait_for(close_task, timeout=(GRACE_MS + SLACK_MS) / 1000)
+                except asyncio.TimeoutError:
+                    obs["hang"] = True
+                except (asyncio.CancelledError, RuntimeError):
+                    pass
         else:
             from chuk_mcp.transports.stdio.stdio_client import StdioClient
             c = shared.get("obj") or StdioClient(params)
             if nsess > 1:
                 shared["obj"] = c
             async with c:
+                if case.get("legacy") and moment == "inflight":
+                    # the per-request stream API: a registered request is still waiting when the context is left
+                    shared["legacy_rx"] = c.new_request_stream("held-legacy")
+                    await c.send_json(JSONRPCMessage(jsonrpc="2.0", id="held-legacy", method="hold", params={}))
                 yield c.get_streams()
 
+    @contextlib.asynccontextmanager
+    async def clients():
+        """`nested` contexts inside one another (each with its own child), the conversation runs on the innermost"""
+        async with contextlib.AsyncExitStack() as stack:
+            rw = None
+            for _ in range(case.get("nested", 1)):
+                rw = await stack.enter_async_context(client())
+            yield rw
+
     async def echo(r, w, j):
-        x = f"{case.get('nonce', 'n')}-{j}"
+        x = "" if case.get("empty_x") else f"{case.get('nonce', 'n')}-{j}"
         rec = {"x": x, "outcome": None}
+        if "falsy_result" in case:
+            rec["expect"] = FALSY_RESULTS[case["falsy_result"]]
         reqs.append(rec)
         t = ANSWER_TIMEOUT_S if answers(case, j) else SILENT_TIMEOUT_S
+        kw = {"message_id": case["req_id"]} if case.get("req_id") is not None else {}
         try:
-            res = await send_message(r, w, "echo", {"x": x}, timeout=t)
+            res = await send_message(r, w, "echo", {"x": x}, timeout=t, **kw)
             rec["outcome"] = "returned"
             rec["payload"] = res
         except TimeoutError:
@@ -272,9 +356,10 @@ async def _scenario(case, tmp, obs):
     async def queue_backlog(w):
         """outgoing traffic queued right before the exit begins (more than pipe + write buffer hold)"""
         n = case.get("backlog", 0)
+        size = case.get("backlog_bytes", BACKLOG_BYTES)
         for i in range(n):
             await w.send(JSONRPCMessage(jsonrpc="2.0", method="notifications/progress",
-                                        params={"progressToken": "backlog", "progress": i, "message": "x" * BACKLOG_BYTES}))
+                                        params={"progressToken": "backlog", "progress": i, "message": "x" * size}))
         if n:
             await anyio.sleep(0.05)
 
@@ -321,13 +406,19 @@ async def _scenario(case, tmp, obs):
                     rec["outcome"] = "error"
                     rec["exc"] = type(ex).__name__
                 await anyio.sleep_forever()
+        if path in ("cancel", "timeout") and case.get("backlog", 0) > 95:
+            arm(scope, 0.4)                    # more than the 100-slot queue takes: the body blocks in send()
+            await queue_backlog(w)
+            await anyio.sleep_forever()
         await queue_backlog(w)
         if path in ("cancel", "timeout"):
             arm(scope, 0.05)
             await anyio.sleep_forever()
         clock["exit"] = time.monotonic()
         if path == "exception":
-            raise Boom("exception in body")
+            if case.get("exc_text") == "noargs":
+                raise Boom()
+            raise Boom(EXC_TEXTS[case.get("exc_text", "plain")])
 
     def arm(scope, delay):
         """the outer scope is cancelled `delay` seconds from now; that is when the exit begins"""
@@ -349,41 +440,41 @@ async def _scenario(case, tmp, obs):
         clock["exit"] = time.monotonic() + d
         if path == "timeout":
             with anyio.move_on_after(d):
-                async with client():
+                async with clients():
                     obs["entered"] = True
                     await anyio.sleep_forever()
         else:
             async with anyio.create_task_group() as tg:
                 with anyio.CancelScope() as inner:
                     tg.start_soon(cancel_later, inner, d)
-                    async with client():
+                    async with clients():
                         obs["entered"] = True
                         await anyio.sleep_forever()
 
     async def run_path():
         try:
-            with anyio.fail_after(SCENARIO_TIMEOUT_S):
+            with anyio.move_on_after(SCENARIO_TIMEOUT_S) as guard:
                 if moment == "entry":
                     await entry_moment()
                 elif path in ("normal", "exception"):
                     try:
-                        async with client() as (r, w):
+                        async with clients() as (r, w):
                             await conversation(r, w, None)
                     except Boom:
                         obs["exit_exc"] = "Boom"
                 elif path == "timeout":
                     # a timeout around the whole context
                     with anyio.move_on_after(3600) as scope:
-                        async with client() as (r, w):
+                        async with clients() as (r, w):
                             await conversation(r, w, scope)
                 else:
                     # outer cancellation: the context lives in a scope that another task cancels
                     async with anyio.create_task_group() as tg:
                         with anyio.CancelScope() as inner:
-                            async with client() as (r, w):
+                            async with clients() as (r, w):
                                 await conversation(r, w, (tg, inner))
-        except TimeoutError:
-            obs["hang"] = True
+            if guard.cancelled_caught:
+                obs["hang"] = True
         except BaseException as ex:  # noqa: BLE001
             if not obs["entered"]:
                 obs["enter_exc"] = type(ex).__name__
